@@ -138,8 +138,13 @@ def check(spec):
     feats = {"solver": solver, "system": spec["system"]}
     system = build_system(spec)
     if solver == "Newton":
-        with quiet():
-            sol = Newton(system, n_load_steps=spec["n_load_steps"], options=dynbuild.options()).solve()
+        import warnings as _w
+        with _w.catch_warnings(record=True) as rec:
+            _w.simplefilter("always")
+            with quiet():
+                sol = Newton(system, n_load_steps=spec["n_load_steps"], options=dynbuild.options()).solve()
+        # a load step that does not converge ends the run with an announcement (C21): the end-point clause is moot then
+        truncated = any(("Returning solution" in str(w.message)) or ("No load step" in str(w.message)) or ("not converged" in str(w.message)) for w in rec)
         expected_t = np.linspace(0, 1, spec["n_load_steps"] + 1)
     else:
         kw = {"rtol": 1e-6, "atol": 1e-8} if solver.startswith("Scipy") else {}
@@ -168,7 +173,7 @@ def check(spec):
     if nt == 0 or abs(t[0] - expected_t[0]) > 1e-12:
         res.fail("starts_at_t0", site, None, feats, f"t[0]={t[0] if nt else None}")
     res.ok()
-    if solver != "Newton" and truncated:
+    if truncated:
         res.label("truncated_run_exempt_from_end_point_clause")
     elif nt != len(expected_t):
         res.fail("ends_at_first_grid_point_at_or_after_t1", site, float(nt - len(expected_t)), feats,
